@@ -176,16 +176,50 @@ fn op_from(v: &Value, emb: Option<&Embedding>) -> Option<Op> {
     })
 }
 
+/// One call on the PrometheusBuilder before build().
+#[derive(Clone, Debug, PartialEq, Eq, Hash)]
+enum Call {
+    Listen,        // with_http_listener(addr): the LAST one gets the real port, earlier ones a decoy address
+    Other,         // a setter that has nothing to do with the exporter configuration
+    Allow(String), // add_allowed_address(s)
+}
+
+fn std_calls(entries: Vec<String>) -> Vec<Call> {
+    std::iter::once(Call::Listen).chain(entries.into_iter().map(Call::Allow)).collect()
+}
+
+fn call_json(c: &Call) -> Value {
+    match c {
+        Call::Listen => json!({"op": "listen"}),
+        Call::Other => json!({"op": "other"}),
+        Call::Allow(s) => json!({"op": "allow", "s": s}),
+    }
+}
+
+/// the call as the trace specification reads it
+fn call_event(c: &Call) -> Value {
+    let none = json!({"k": "none", "a": [], "n": 0, "s": ""});
+    match c {
+        Call::Listen => json!({"op": "listen", "e": none}),
+        Call::Other => json!({"op": "other", "e": none}),
+        Call::Allow(s) => json!({"op": "allow", "e": entry_json(s)}),
+    }
+}
+
+fn allow_entries(calls: &[Call]) -> Vec<String> {
+    calls.iter().filter_map(|c| if let Call::Allow(s) = c { Some(s.clone()) } else { None }).collect()
+}
+
 struct Program {
     mode: String,
-    entries: Vec<String>,
+    calls: Vec<Call>, // the builder call chain before build(), in order
     ops: Vec<Op>,
     flavor: u64, // 0: exporter future spawned on a shared multi-thread runtime; 1: own current-thread runtime + thread (as install() does)
 }
 
 impl Program {
     fn to_json(&self) -> Value {
-        json!({"concrete": true, "mode": self.mode, "flavor": self.flavor, "entries": self.entries,
+        json!({"concrete": true, "mode": self.mode, "flavor": self.flavor, "calls": self.calls.iter().map(call_json).collect::<Vec<_>>(),
                "ops": self.ops.iter().map(op_json).collect::<Vec<_>>()})
     }
 }
@@ -220,20 +254,31 @@ struct Exporter {
 
 impl Exporter {
     /// Ok(exporter) or Err((1-based index of the rejected entry, message)).
-    fn start(srt: &tokio::runtime::Runtime, entries: &[String], flavor: u64) -> Result<Exporter, (usize, String)> {
+    fn start(srt: &tokio::runtime::Runtime, calls: &[Call], flavor: u64) -> Result<Exporter, (usize, String)> {
         for _attempt in 0..50 {
             let l = std::net::TcpListener::bind("127.0.0.1:0").expect("bind an ephemeral port");
             let port = l.local_addr().unwrap().port();
             drop(l);
-            let mut b = metrics_exporter_prometheus::PrometheusBuilder::new()
-                .with_http_listener(SocketAddr::from(([127, 0, 0, 1], port)))
-                .upkeep_timeout(Duration::from_secs(3600));
-            for (i, e) in entries.iter().enumerate() {
-                b = match b.add_allowed_address(e) {
-                    Ok(b) => b,
-                    Err(err) => return Err((i + 1, err.to_string())),
+            // the chain exactly as the program spells it; only the last with_http_listener carries the port we probe
+            let last_listen = calls.iter().rposition(|c| *c == Call::Listen).expect("a program sets the listen address");
+            let mut b = metrics_exporter_prometheus::PrometheusBuilder::new();
+            let mut nallow = 0;
+            for (i, c) in calls.iter().enumerate() {
+                b = match c {
+                    Call::Listen if i == last_listen => b.with_http_listener(SocketAddr::from(([127, 0, 0, 1], port))),
+                    Call::Listen => b.with_http_listener(SocketAddr::from(([127, 0, 0, 1], 1))), // never built
+                    Call::Other if i % 2 == 0 => b.set_bucket_count(std::num::NonZeroU32::new(3).unwrap()),
+                    Call::Other => b.set_enable_unit_suffix(false),
+                    Call::Allow(e) => {
+                        nallow += 1;
+                        match b.add_allowed_address(e) {
+                            Ok(b) => b,
+                            Err(err) => return Err((nallow, err.to_string())),
+                        }
+                    }
                 };
             }
+            let b = b.upkeep_timeout(Duration::from_secs(3600));
             let stop = Arc::new(AtomicBool::new(false));
             let finished = Arc::new(AtomicBool::new(false));
             let (recorder, jh, th);
@@ -805,9 +850,9 @@ impl<'a> Exec<'a> {
 
 fn run_program(srt: &tokio::runtime::Runtime, crt: &tokio::runtime::Runtime, p: &Program, run: u64, w: &mut vh::trace::Writer, st: &mut Stats) {
     st.runs += 1;
-    let entries_json: Vec<Value> = p.entries.iter().map(|s| entry_json(s)).collect();
-    let started = std::panic::catch_unwind(std::panic::AssertUnwindSafe(|| Exporter::start(srt, &p.entries, p.flavor)));
-    let mut reset = json!({"ev": "reset", "run": run, "mode": p.mode, "flavor": p.flavor, "entries": entries_json,
+    let hist_json: Vec<Value> = p.calls.iter().map(call_event).collect();
+    let started = std::panic::catch_unwind(std::panic::AssertUnwindSafe(|| Exporter::start(srt, &p.calls, p.flavor)));
+    let mut reset = json!({"ev": "reset", "run": run, "mode": p.mode, "flavor": p.flavor, "hist": hist_json,
                            "prog": p.to_json().to_string()});
     let ex = match started {
         Err(_) => {
@@ -831,7 +876,7 @@ fn run_program(srt: &tokio::runtime::Runtime, crt: &tokio::runtime::Runtime, p: 
     reset["ok"] = json!(true);
     reset["bad"] = json!(0);
     w.put(&reset);
-    let cfg_hash = if p.entries.is_empty() { 0 } else { h64(&p.entries) | 1 };
+    let cfg_hash = if allow_entries(&p.calls).is_empty() { 0 } else { h64(&p.calls) | 1 };
     let mut e = Exec { crt, ex: &ex, conns: HashMap::new(), ev: vec![], par: false, spec_ctr: 0, aborted: false, cfg_hash,
                        peers: HashMap::new(), paths: HashMap::new() };
     for op in &p.ops {
@@ -892,17 +937,43 @@ fn vector_ops(w: usize, emb: &Embedding, idx: usize, all_paths: bool) -> Vec<Op>
 
 fn programs_from_line(v: &Value, idx: usize, all_paths: bool, all_emb: bool) -> Vec<Program> {
     if v["concrete"].as_bool() == Some(true) {
-        let entries = v["entries"].as_array().map(|a| a.iter().map(|s| s.as_str().unwrap_or("").to_string()).collect()).unwrap_or_default();
+        let calls: Vec<Call> = match v["calls"].as_array() {
+            Some(a) => a
+                .iter()
+                .map(|c| match c["op"].as_str() {
+                    Some("listen") => Call::Listen,
+                    Some("allow") => Call::Allow(c["s"].as_str().unwrap_or("").to_string()),
+                    _ => Call::Other,
+                })
+                .collect(),
+            None => std_calls(v["entries"].as_array().map(|a| a.iter().map(|s| s.as_str().unwrap_or("").to_string()).collect()).unwrap_or_default()),
+        };
         let ops = v["ops"].as_array().map(|a| a.iter().filter_map(|o| op_from(o, None)).collect()).unwrap_or_default();
-        return vec![Program { mode: v["mode"].as_str().unwrap_or("replay").to_string(), entries, ops, flavor: v["flavor"].as_u64().unwrap_or(0) }];
+        return vec![Program { mode: v["mode"].as_str().unwrap_or("replay").to_string(), calls, ops, flavor: v["flavor"].as_u64().unwrap_or(0) }];
     }
-    let ents = v["entries"].as_array().cloned().unwrap_or_default();
-    let w = ents.iter().filter_map(|e| e["a"].as_array().map(|a| a.len())).find(|n| *n > 0).unwrap_or(4);
+    // abstract: a builder call history `hist` ([{op, e}]) or, older form, just `entries` (= listen first, then the entries)
+    let hist: Vec<Value> = match v["hist"].as_array() {
+        Some(h) => h.clone(),
+        None => std::iter::once(json!({"op": "listen"}))
+            .chain(v["entries"].as_array().cloned().unwrap_or_default().into_iter().map(|e| json!({"op": "allow", "e": e})))
+            .collect(),
+    };
+    if !hist.iter().any(|c| c["op"] == "listen") {
+        return vec![]; // the default address 0.0.0.0:9000 is not ours to bind
+    }
+    let w = hist.iter().filter_map(|c| c["e"]["a"].as_array().map(|a| a.len())).find(|n| *n > 0).unwrap_or(4);
     let embs: Vec<usize> = if all_emb { (0..EMBEDDINGS.len()).collect() } else { vec![idx % EMBEDDINGS.len()] };
     let mut out = vec![];
     for ei in embs {
         let emb = &EMBEDDINGS[ei];
-        let entries: Vec<String> = ents.iter().map(|e| emb.entry(e)).collect();
+        let calls: Vec<Call> = hist
+            .iter()
+            .map(|c| match c["op"].as_str() {
+                Some("listen") => Call::Listen,
+                Some("allow") => Call::Allow(emb.entry(&c["e"])),
+                _ => Call::Other,
+            })
+            .collect();
         let (mode, mut ops): (&str, Vec<Op>) = match v["ops"].as_array() {
             Some(a) => ("tlc", a.iter().filter_map(|o| op_from(o, Some(emb))).collect()),
             None => ("vec", vector_ops(w, emb, idx + ei, all_paths)),
@@ -915,7 +986,7 @@ fn programs_from_line(v: &Value, idx: usize, all_paths: bool, all_emb: bool) -> 
                 ops.push(Op::Probe { peer: emb.addr(&bits), path: ["metrics", "health", "root"][i].to_string() });
             }
         }
-        out.push(Program { mode: mode.to_string(), entries, ops, flavor: ((idx + ei) % 4 == 3) as u64 });
+        out.push(Program { mode: mode.to_string(), calls, ops, flavor: ((idx + ei) % 4 == 3) as u64 });
     }
     out
 }
@@ -1072,7 +1143,22 @@ fn random_program(rng: &mut rand::rngs::StdRng, idx: usize, plain_permille: u32)
             ops.push(Op::Probe { peer: peers[rng.random_range(0..peers.len())], path: path.to_string() });
         }
     }
-    Program { mode: ["seq", "seq", "par"][kind].to_string(), entries, ops, flavor: (idx % 5 == 4) as u64 }
+    // the builder chain: the usual order half of the time, otherwise the listen address is set (once or several times)
+    // and unrelated setters are called anywhere among the add_allowed_address calls
+    let mut calls: Vec<Call> = entries.into_iter().map(Call::Allow).collect();
+    if rng.random_range(0..2) == 0 {
+        calls.insert(0, Call::Listen);
+    } else {
+        for _ in 0..rng.random_range(1..=3) {
+            let at = rng.random_range(0..=calls.len());
+            calls.insert(at, Call::Listen);
+        }
+        for _ in 0..rng.random_range(0..=2) {
+            let at = rng.random_range(0..=calls.len());
+            calls.insert(at, Call::Other);
+        }
+    }
+    Program { mode: ["seq", "seq", "par"][kind].to_string(), calls, ops, flavor: (idx % 5 == 4) as u64 }
 }
 
 // ------------------------------------------------------------------------------------------------ main
